@@ -216,6 +216,10 @@ func (t *textReader) nextBeforeTypeAnnotations() (bool, error) {
 	switch tok {
 	case tokenEOF:
 		if t.ctx.peek() == ctxAtTopLevel {
+			if len(t.annotations) > 0 {
+				// Annotations must be followed by the value they annotate.
+				return false, &UnexpectedEOFError{t.tok.Pos() - 1}
+			}
 			t.eof = true
 			return true, nil
 		}
@@ -348,7 +352,7 @@ func (t *textReader) nextBeforeTypeAnnotations() (bool, error) {
 
 	case tokenCloseBracket:
 		// No more values in this list.
-		if t.ctx.peek() == ctxInList {
+		if t.ctx.peek() == ctxInList && len(t.annotations) == 0 {
 			t.eof = true
 			return true, nil
 		}
@@ -356,7 +360,7 @@ func (t *textReader) nextBeforeTypeAnnotations() (bool, error) {
 
 	case tokenCloseParen:
 		// No more values in this sexp.
-		if t.ctx.peek() == ctxInSexp {
+		if t.ctx.peek() == ctxInSexp && len(t.annotations) == 0 {
 			t.eof = true
 			return true, nil
 		}
